@@ -286,11 +286,15 @@ fn vout(o: &mut Out, base: Value, r: Result<hx::ivec::Spelled<hx::ivec::VOut>, S
                 let mut ev = ev.clone();
                 ev["sp"] = json!(sp);
                 match g {
-                    None => {
+                    hx::ivec::VOut::Panic => {
+                        ev["out"] = json!("panic");
+                        ev["got"] = json!([]);
+                    }
+                    hx::ivec::VOut::None => {
                         ev["out"] = json!("none");
                         ev["got"] = json!([]);
                     }
-                    Some(l) => {
+                    hx::ivec::VOut::Val(l) => {
                         ev["out"] = json!("val");
                         ev["got"] = Value::Array(l.iter().map(|x| wz(*x)).collect());
                     }
@@ -639,6 +643,186 @@ fn rec_poly(o: &mut Out, r: &mut Rng, draws: u64) {
     }
 }
 
+// ------------------------------------------------------------------------------------------ matrices entry by entry (Trace_Lanes f1 / f2)
+/// +, -, negation, scalar * and / of every matrix type are entry-wise: logged as lane events over the column-major entries
+macro_rules! mat_lanes {
+    ($o:ident, $r:ident, $M:ident, $S:ident, $is32:expr, $fm:expr, $n:expr, $addm:ident, $subm:ident) => {{
+        let is32 = $is32;
+        let a: Vec<u64> = (0..$n).map(|_| rnd_f($r, is32)).collect();
+        let b: Vec<u64> = a.iter().map(|x| partner($r, *x, is32)).collect();
+        let fa: Vec<$S> = a.iter().map(|x| <$S>::from_bits(*x as _)).collect();
+        let fb: Vec<$S> = b.iter().map(|x| <$S>::from_bits(*x as _)).collect();
+        let (ma, mb) = ($M::from_cols_slice(&fa), $M::from_cols_slice(&fb));
+        let encb = |v: &[u64]| -> Value { Value::Array(v.iter().map(|x| wf(*x, is32)).collect()) };
+        let enc = |m: &$M| -> Value { Value::Array(m.to_cols_array().iter().map(|x| wf(x.to_bits() as u64, is32)).collect()) };
+        let ty = stringify!($M);
+        let mut e2 = |op: &str, sp: &str, x: &[u64], y: &[u64], g: Result<$M, String>| {
+            match g {
+                Ok(g) => $o.emit(json!({"k": "f2", "f": $fm, "op": op, "ty": ty, "sp": sp, "a": encb(x), "b": encb(y), "got": enc(&g)})),
+                Err(p) => $o.emit(json!({"k": "f2", "f": $fm, "op": op, "ty": ty, "sp": sp, "a": encb(x), "b": encb(y), "panic": p})),
+            }
+        };
+        e2("add", "a + b", &a, &b, catch(|| ma + mb));
+        e2("add", stringify!($addm), &a, &b, catch(|| ma.$addm(&mb)));
+        e2("add", "a += b", &a, &b, catch(|| { let mut t = ma; t += mb; t }));
+        e2("sub", "a - b", &a, &b, catch(|| ma - mb));
+        e2("sub", stringify!($subm), &a, &b, catch(|| ma.$subm(&mb)));
+        e2("sub", "a -= b", &a, &b, catch(|| { let mut t = ma; t -= mb; t }));
+        // several scalars per matrix: any bit pattern, a moderate value, a small odd integer (x / 3 is not x * (1/3)), near 1
+        for k in 0..4u64 {
+            let sb: u64 = match k {
+                0 => rnd_f($r, is32),
+                1 => rnd_mod($r, is32),
+                2 => { let v = [3.0f64, 5.0, 7.0, 10.0, -6.0, 11.0, 13.0][$r.below(7) as usize]; if is32 { (v as f32).to_bits() as u64 } else { v.to_bits() } }
+                _ => { let v = 1.0f64 + ($r.below(64) as f64 - 32.0) / 256.0; if is32 { (v as f32).to_bits() as u64 } else { v.to_bits() } }
+            };
+            let s = <$S>::from_bits(sb as _);
+            let ss: Vec<u64> = vec![sb; $n];
+            match k {
+                0 => { e2("mul", "m * s", &a, &ss, catch(|| ma * s)); e2("div", "m / s", &a, &ss, catch(|| ma / s)); }
+                1 => { e2("mul", "s * m", &ss, &a, catch(|| s * ma)); e2("div", "div_scalar", &a, &ss, catch(|| ma.div_scalar(s))); }
+                2 => { e2("mul", "mul_scalar", &a, &ss, catch(|| ma.mul_scalar(s))); e2("div", "m /= s", &a, &ss, catch(|| { let mut t = ma; t /= s; t }));
+                       e2("div", "s / m (glam: m / s)", &a, &ss, catch(|| s / ma)); }
+                _ => { e2("mul", "m *= s", &a, &ss, catch(|| { let mut t = ma; t *= s; t })); e2("div", "m / s", &a, &ss, catch(|| ma / s)); }
+            }
+        }
+        if let Ok(g) = catch(|| -ma) { $o.emit(json!({"k": "f1", "f": $fm, "op": "neg", "ty": ty, "sp": "-m", "a": encb(&a), "got": enc(&g)})); }
+        if let Ok(g) = catch(|| ma.abs()) { $o.emit(json!({"k": "f1", "f": $fm, "op": "abs", "ty": ty, "sp": "abs", "a": encb(&a), "got": enc(&g)})); }
+    }};
+}
+fn rec_mat(o: &mut Out, r: &mut Rng, draws: u64) {
+    use glam::*;
+    for _ in 0..draws {
+        mat_lanes!(o, r, Mat2, f32, true, 32, 4, add_mat2, sub_mat2);
+        mat_lanes!(o, r, Mat3, f32, true, 32, 9, add_mat3, sub_mat3);
+        mat_lanes!(o, r, Mat3A, f32, true, 32, 9, add_mat3, sub_mat3);
+        mat_lanes!(o, r, Mat4, f32, true, 32, 16, add_mat4, sub_mat4);
+        mat_lanes!(o, r, DMat2, f64, false, 64, 4, add_mat2, sub_mat2);
+        mat_lanes!(o, r, DMat3, f64, false, 64, 9, add_mat3, sub_mat3);
+        mat_lanes!(o, r, DMat4, f64, false, 64, 16, add_mat4, sub_mat4);
+    }
+}
+
+// ------------------------------------------------------------------------------------------ relational promises (Trace_Rel)
+fn unit_f64(r: &mut Rng) -> f64 { (r.next() >> 11) as f64 / (1u64 << 53) as f64 }
+macro_rules! rel_vec {
+    ($o:ident, $r:ident, $V:ident, $S:ident, $n:expr, $is32:expr, $fm:expr, $rot:tt) => {{
+        let is32 = $is32;
+        let w = |x: $S| -> Value { wf(x.to_bits() as u64, is32) };
+        let wv = |v: &$V| -> Value { Value::Array(v.to_array().iter().map(|x| w(*x)).collect()) };
+        let ty = stringify!($V);
+        let rv = |r: &mut Rng| -> $V { let l: Vec<$S> = (0..$n).map(|_| <$S>::from_bits(rnd_mod(r, is32) as _)).collect(); $V::from_slice(&l) };
+        let ro = |r: &mut Rng| -> $V { let l: Vec<$S> = (0..$n).map(|_| (unit_f64(r) * 4.0 - 2.0) as $S).collect(); $V::from_slice(&l) };
+        // ---- normalize family: arbitrary magnitudes, and vectors within 1e-4 of unit length
+        let mut vs = vec![rv($r)];
+        { let u = ro($r); let l = u.length(); if l > 0.1 { vs.push(u / l * (1.0 + ((unit_f64($r) - 0.5) * 2e-4) as $S)); } }
+        for v in vs {
+        if v.length_squared() > 0.0 && v.length_squared().is_finite() && (v.length_squared() as f64) > 1e-30 && (v.length_squared() as f64) < 1e30 {
+            $o.emit(json!({"k": "rel", "op": "normalize", "f": $fm, "ty": ty, "sp": "normalize", "v": wv(&v), "got": wv(&v.normalize())}));
+            if let Some(g) = v.try_normalize() { $o.emit(json!({"k": "rel", "op": "normalize", "f": $fm, "ty": ty, "sp": "try_normalize", "v": wv(&v), "got": wv(&g)})); }
+            $o.emit(json!({"k": "rel", "op": "normalize", "f": $fm, "ty": ty, "sp": "normalize_or_zero", "v": wv(&v), "got": wv(&v.normalize_or_zero())}));
+            $o.emit(json!({"k": "rel", "op": "normalize", "f": $fm, "ty": ty, "sp": "normalize_or", "v": wv(&v), "got": wv(&v.normalize_or($V::splat(7.0)))}));
+            $o.emit(json!({"k": "rel", "op": "normalize", "f": $fm, "ty": ty, "sp": "normalize_and_length", "v": wv(&v), "got": wv(&v.normalize_and_length().0)}));
+        }
+        }
+        // ---- move_towards
+        let a = ro($r);
+        let dir = ro($r);
+        let dl = dir.length();
+        if dl > 0.1 {
+            let sep: $S = [5e-3, 0.3, 2.0, 2e-3, 3e-4, 1.0][$r.below(6) as usize];
+            let b = a + dir / dl * sep;
+            let len = a.distance(b);
+            for frac in [0.0 as $S, 0.2, 0.9, 0.999, 1.001, 3.0] {
+                let d = len * frac;
+                $o.emit(json!({"k": "rel", "op": "move_towards", "f": $fm, "ty": ty, "a": wv(&a), "b": wv(&b), "d": w(d), "got": wv(&a.move_towards(b, d))}));
+            }
+            let d: $S = 1e-3;
+            $o.emit(json!({"k": "rel", "op": "move_towards", "f": $fm, "ty": ty, "a": wv(&a), "b": wv(&b), "d": w(d), "got": wv(&a.move_towards(b, d))}));
+        }
+        rel_vec!(@rot $rot, $o, $r, $V, $S, $n, is32, $fm, w, wv, ro, ty);
+    }};
+    (@rot rot2, $o:ident, $r:ident, $V:ident, $S:ident, $n:expr, $is32:ident, $fm:expr, $w:ident, $wv:ident, $ro:ident, $ty:ident) => {{
+        // 2D: angle_to is signed (|angle| is judged), rotate_towards beyond the remaining angle
+        let a = $ro($r);
+        if a.length() > 0.1 {
+            for k in [3.0 as $S, 0.7, -5.0, 1.0, -1.0, 2.5, -0.3] {
+                let b = a * k;
+                $o.emit(json!({"k": "rel", "op": "angle_parallel", "f": $fm, "ty": $ty, "quat": 0, "signed": 1, "sp": "angle_to", "a": $wv(&a), "b": $wv(&b), "got": $w(a.angle_to(b))}));
+                if k > 0.0 {
+                    $o.emit(json!({"k": "rel", "op": "rot_reach", "f": $fm, "ty": $ty, "quat": 0, "sp": "parallel target", "a": $wv(&a), "b": $wv(&b), "got": $wv(&a.rotate_towards(b, 4.0))}));
+                }
+            }
+            let b = $ro($r);
+            if b.length() > 0.1 && a.angle_to(b).abs() < 3.0 {
+                $o.emit(json!({"k": "rel", "op": "rot_reach", "f": $fm, "ty": $ty, "quat": 0, "sp": "general target", "a": $wv(&a), "b": $wv(&b), "got": $wv(&a.rotate_towards(b, 4.0))}));
+            }
+        }
+    }};
+    (@rot norot, $o:ident, $r:ident, $V:ident, $S:ident, $n:expr, $is32:ident, $fm:expr, $w:ident, $wv:ident, $ro:ident, $ty:ident) => {};
+    (@rot rot, $o:ident, $r:ident, $V:ident, $S:ident, $n:expr, $is32:ident, $fm:expr, $w:ident, $wv:ident, $ro:ident, $ty:ident) => {{
+        // ---- angle between parallel / anti-parallel dense vectors, and rotate_towards beyond the remaining angle
+        let a = $ro($r);
+        if a.length() > 0.1 {
+            for k in [3.0 as $S, 0.7, -5.0, 1.0, -1.0, 2.5, -0.3] {
+                let b = a * k;
+                $o.emit(json!({"k": "rel", "op": "angle_parallel", "f": $fm, "ty": $ty, "quat": 0, "a": $wv(&a), "b": $wv(&b), "got": $w(a.angle_between(b))}));
+                if k > 0.0 {
+                    $o.emit(json!({"k": "rel", "op": "rot_reach", "f": $fm, "ty": $ty, "quat": 0, "sp": "parallel target", "a": $wv(&a), "b": $wv(&b), "got": $wv(&a.rotate_towards(b, 4.0))}));
+                }
+            }
+            let b = $ro($r);
+            if b.length() > 0.1 && a.angle_between(b) < 3.0 {
+                $o.emit(json!({"k": "rel", "op": "rot_reach", "f": $fm, "ty": $ty, "quat": 0, "sp": "general target", "a": $wv(&a), "b": $wv(&b), "got": $wv(&a.rotate_towards(b, 4.0))}));
+            }
+        }
+    }};
+}
+macro_rules! rel_quat {
+    ($o:ident, $r:ident, $Q:ident, $V3:ident, $S:ident, $is32:expr, $fm:expr) => {{
+        let is32 = $is32;
+        let w = |x: $S| -> Value { wf(x.to_bits() as u64, is32) };
+        let wq = |q: &$Q| -> Value { Value::Array(q.to_array().iter().map(|x| w(*x)).collect()) };
+        let ty = stringify!($Q);
+        let rq = |r: &mut Rng| -> $Q { let l: Vec<$S> = (0..4).map(|_| (unit_f64(r) * 2.0 - 1.0) as $S).collect(); $Q::from_slice(&l).normalize() };
+        let q0 = rq($r);
+        let axis = { let l: Vec<$S> = (0..3).map(|_| (unit_f64($r) * 2.0 - 1.0) as $S).collect(); $V3::from_slice(&l).normalize() };
+        if q0.is_finite() && axis.is_finite() {
+            let ang: $S = [0.05, 0.01, 0.5, 1.5, 2.9, 0.002, 1.0][$r.below(7) as usize];
+            let mut q1 = ($Q::from_axis_angle(axis, ang) * q0).normalize();
+            if $r.below(3) == 0 { q1 = -q1; }
+            let rs: Vec<Value> = (0..=8).map(|j| wq(&q0.slerp(q1, j as $S / 8.0))).collect();
+            $o.emit(json!({"k": "rel", "op": "slerp8", "f": $fm, "ty": ty, "q0": wq(&q0), "q1": wq(&q1), "r": rs}));
+            // unnormalised inputs with a raw random quaternion
+            let raw = { let l: Vec<$S> = (0..4).map(|_| <$S>::from_bits(rnd_mod($r, is32) as _)).collect(); $Q::from_slice(&l) };
+            if raw.length_squared() > 0.0 && (raw.length_squared() as f64) > 1e-30 && (raw.length_squared() as f64) < 1e30 {
+                $o.emit(json!({"k": "rel", "op": "normalize", "f": $fm, "ty": ty, "sp": "normalize", "v": wq(&raw), "got": wq(&raw.normalize())}));
+            }
+            let near = q0 * (1.0 + ((unit_f64($r) - 0.5) * 2e-4) as $S);
+            $o.emit(json!({"k": "rel", "op": "normalize", "f": $fm, "ty": ty, "sp": "normalize (nearly unit)", "v": wq(&near), "got": wq(&near.normalize())}));
+            // the angle between a rotation and itself / its negative is zero; rotating towards beyond the remaining angle reaches the target
+            $o.emit(json!({"k": "rel", "op": "angle_parallel", "f": $fm, "ty": ty, "quat": 1, "a": wq(&q0), "b": wq(&q0), "got": w(q0.angle_between(q0))}));
+            $o.emit(json!({"k": "rel", "op": "angle_parallel", "f": $fm, "ty": ty, "quat": 1, "sp": "q, -q", "a": wq(&q0), "b": wq(&q0), "got": w(q0.angle_between(-q0))}));
+            $o.emit(json!({"k": "rel", "op": "rot_reach", "f": $fm, "ty": ty, "quat": 1, "sp": "q to q", "a": wq(&q0), "b": wq(&q0), "got": wq(&q0.rotate_towards(q0, 0.25))}));
+            $o.emit(json!({"k": "rel", "op": "rot_reach", "f": $fm, "ty": ty, "quat": 1, "sp": "q to q1", "a": wq(&q0), "b": wq(&q1), "got": wq(&q0.rotate_towards(q1, 7.0))}));
+        }
+    }};
+}
+fn rec_rel(o: &mut Out, r: &mut Rng, draws: u64) {
+    use glam::*;
+    for _ in 0..draws {
+        rel_vec!(o, r, Vec2, f32, 2, true, 32, rot2);
+        rel_vec!(o, r, Vec3, f32, 3, true, 32, rot);
+        rel_vec!(o, r, Vec3A, f32, 3, true, 32, rot);
+        rel_vec!(o, r, Vec4, f32, 4, true, 32, norot);
+        rel_vec!(o, r, DVec2, f64, 2, false, 64, rot2);
+        rel_vec!(o, r, DVec3, f64, 3, false, 64, rot);
+        rel_vec!(o, r, DVec4, f64, 4, false, 64, norot);
+        rel_quat!(o, r, Quat, Vec3, f32, true, 32);
+        rel_quat!(o, r, DQuat, DVec3, f64, false, 64);
+    }
+}
+
 // ------------------------------------------------------------------------------------------ replay of one event
 fn unlimbs(v: &[Value]) -> u128 {
     let mut m: u128 = 0;
@@ -756,6 +940,8 @@ fn main() {
         }
         "conv" => rec_conv(&mut o, &mut r, draws),
         "poly" => rec_poly(&mut o, &mut r, draws),
+        "mat" => rec_mat(&mut o, &mut r, draws),
+        "rel" => rec_rel(&mut o, &mut r, draws),
         _ => panic!("mode"),
     }
     o.w.flush().unwrap();
